@@ -220,8 +220,15 @@ func (h *rHandler) Handle(_ context.Context, rc slog.Record) error {
 	switch rc.Message {
 	case "progress", "Load Test Passed", "Load Test Failed":
 	default:
-		if strings.Contains(rc.Message, "not completed after") {
+		switch {
+		case strings.Contains(rc.Message, "not completed after"):
 			h.rec.add(rEv{K: "timeoutmsg", C: h.rec.us()})
+		case strings.HasPrefix(rc.Message, "Max Duration Elapsed"):
+			h.rec.add(rEv{K: "endmsg", S: "maxdur", C: h.rec.us()})
+		case strings.HasPrefix(rc.Message, "Max Iterations Reached"):
+			h.rec.add(rEv{K: "endmsg", S: "maxiter", C: h.rec.us()})
+		case strings.HasPrefix(rc.Message, "Interrupted"):
+			h.rec.add(rEv{K: "endmsg", S: "interrupt", C: h.rec.us()})
 		}
 		return nil
 	}
